@@ -61,7 +61,7 @@ IMPORTED = {
 FETCHERS = ['none', 'ok', 'dirty', 'nothing', 'badbytes', 'raise-os', 'raise-value', 'raise-rt', 're-ok', 're-dirty']
 # (csscombine(cssText='') calls sys.exit: an empty text counts as "no source given", script.py:360)
 COMBINE_TEXTS = ['a{color:red}', '/*c*/', '@media print{a{color:red}}', '@page{margin:0}']
-RULES = ['a{x:1}', 'a.x{x:1}', 'a.x.y{x:1}', 'b{x:1}', 'a b{x:1}', 'a,b{x:1}', 'a.x,b.y.z{x:1}', '#i{x:1}']
+RULES = ['e{}', 'a{x:1}', 'a.x{x:1}', 'a.x.y{x:1}', 'b{x:1}', 'a b{x:1}', 'a,b{x:1}', 'a.x,b.y.z{x:1}', '#i{x:1}']
 PREFS = [('indent', ['    ', '  ', '\t']), ('keepComments', [True, False]), ('omitLastSemicolon', [True, False]),
          ('lineSeparator', ['\n', '\r\n'])]
 BAD_BYTES = b'\xff\xfe\xff'
@@ -347,7 +347,7 @@ class Runner:
             return True
         if k == 'serialize':
             rule = self.rule(op['rule'])
-            text = rule.cssText
+            text = rule.cssText or ''      # a rule without declarations serialises to nothing (keepEmptyRules off)
             lvl = cssutils.ser._selectorlevel
             unit = cssutils.ser.prefs.indent
             extra['levels'] = [lvl]
@@ -510,6 +510,10 @@ CTORS = [
     "_SHEET.cssRules[0].style.setProperty('color', T)",
     "setattr(cssutils.stylesheets.MediaList('print'), 'mediaText', T)",
     "setattr(cssutils.stylesheets.MediaQuery('print'), 'mediaText', T)",
+    # a query object that was created as a member of a list, used on its own afterwards
+    "setattr(cssutils.stylesheets.MediaList('screen, print')[0], 'mediaText', T)",
+    "setattr(cssutils.parseString('@media screen, tv {a{b:c}}').cssRules[0].media[1], 'mediaText', T)",
+    "setattr(cssutils.parseString('@import \"x\" print;').cssRules[0].media[0], 'mediaText', T)",
     "_SHEET.insertRule(T)",
     "cssutils.parseString('@media ' + T + ' {a{b:c}}')",
     "cssutils.parseString('a{color:' + T + '}')",
@@ -559,6 +563,8 @@ BATTERY_SHEETS = [
     'a{color:red;;x} }{ @media {a{b:c}}',
     '@namespace p "u"; p|a > b + c ~ d[x|y="1"]:not(.z)::after{color:rgb(1,2,3)}',
     '/*c*/ a.x{y:1} a.x.y{y:2} b{c:d}',
+    'e{} f{/*only a comment*/} @media print{g{}} @font-face{} h{i:j}',
+    '@page{} @page :left{margin:1px} k{l:m}',
 ]
 BATTERY_CTORS = [
     ("cssutils.stylesheets.MediaList(T).mediaText", 'screen, print and (min-width: 1px)'),
@@ -572,44 +578,96 @@ BATTERY_CTORS = [
 ]
 
 
-def battery(runner):
-    """fixed probes; every entry is a string. Uses fresh parser objects AND a parser object that lives as long as
-    the process (parser objects are reusable); leaves no explicit setting changed."""
+def battery_probes(runner):
+    """fixed probes as (key, thunk) pairs; every result is a string. Uses fresh parser objects AND parser objects that
+    live as long as the process (parser objects are reusable); changes no explicit setting."""
     cssutils = runner.cssutils
-    out = []
-    out.append('mode=%r' % bool(cssutils.log.raiseExceptions))
-    out.append('saved=%r' % (runner.prodparser.savedTokens,))
+    probes = []
+    probes.append(('mode', lambda: repr(bool(cssutils.log.raiseExceptions))))
+    probes.append(('saved', lambda: repr(runner.prodparser.savedTokens)))
 
     def fetch(url):
         return (None, 'i{color:blue}')
-    if not hasattr(runner, '_battery_parser'):
-        runner._battery_parser = cssutils.CSSParser(fetcher=fetch)
-        runner._battery_parser_r = cssutils.CSSParser(raiseExceptions=True, fetcher=fetch)
-    for tag, mk in (('fresh', lambda: cssutils.CSSParser(fetcher=fetch)), ('kept', lambda: runner._battery_parser),
-                    ('kept-raising', lambda: runner._battery_parser_r)):
-        for t in BATTERY_SHEETS:
+
+    def kept(raising):
+        name = '_battery_parser_r' if raising else '_battery_parser'
+        if not hasattr(runner, name):
+            setattr(runner, name, cssutils.CSSParser(raiseExceptions=raising, fetcher=fetch))
+        return getattr(runner, name)
+
+    def parse_probe(mk, t):
+        def run():
             try:
-                sheet = mk().parseString(t, href='http://c12.invalid/b/')
-                out.append('%s %r -> %r' % (tag, t, sheet.cssText))
+                return repr(mk().parseString(t, href='http://c12.invalid/b/').cssText)
             except Exception as e:      # noqa: B902
-                out.append('%s %r !! %s: %s' % (tag, t, type(e).__name__, str(e)[:100]))
+                return '!! %s: %s' % (type(e).__name__, str(e)[:100])
+        return run
+    for tag, mk in (('fresh', lambda: cssutils.CSSParser(fetcher=fetch)), ('kept', lambda: kept(False)),
+                    ('kept-raising', lambda: kept(True))):
+        for t in BATTERY_SHEETS:
+            probes.append(('%s %r' % (tag, t), parse_probe(mk, t)))
+
+    def ctor_probe(expr, t):
+        def run():
+            try:
+                return repr(eval(expr, {'cssutils': cssutils, 'T': t}))
+            except Exception as e:      # noqa: B902
+                return '!! %s: %s' % (type(e).__name__, str(e)[:100])
+        return run
     for expr, t in BATTERY_CTORS:
-        try:
-            out.append('%s [%r] -> %r' % (expr, t, eval(expr, {'cssutils': cssutils, 'T': t})))
-        except Exception as e:      # noqa: B902
-            out.append('%s [%r] !! %s: %s' % (expr, t, type(e).__name__, str(e)[:100]))
+        probes.append(('%s [%r]' % (expr, t), ctor_probe(expr, t)))
+
     # a DOM edit that must raise when (and only when) the process is in raising mode
+    def edit_probe(expr):
+        def run():
+            try:
+                s = cssutils.css.CSSStyleSheet()
+                try:
+                    s.cssText = 'a{color:red}'
+                except Exception:       # noqa: B902
+                    pass
+                eval(expr, {'cssutils': cssutils, 'S': s})
+                return 'no exception; %r' % (s.cssText,)
+            except Exception as e:      # noqa: B902
+                return '!! %s' % type(e).__name__
+        return run
     for expr in ("setattr(S.cssRules[0], 'selectorText', '{{')", "S.cssRules[0].style.setProperty('color', ';;')",
                  "S.insertRule('@charset \"x\";', 1)"):
-        try:
-            s = cssutils.css.CSSStyleSheet()
+        probes.append(('edit %s' % expr, edit_probe(expr)))
+    probes.append(('mode-after', lambda: repr(bool(cssutils.log.raiseExceptions))))
+    return probes
+
+
+def battery(runner):
+    """all probes one after the other in this process (after whatever happened before)"""
+    return ['%s -> %s' % (k, f()) for k, f in battery_probes(runner)]
+
+
+def battery_isolated(runner):
+    """every probe in a forked copy of this process: each one is the FIRST library call after the explicit settings
+    made so far. This is the reference the batteries of the histories are compared with."""
+    out = []
+    for k, f in battery_probes(runner):
+        r, w = os.pipe()
+        pid = os.fork()
+        if pid == 0:
+            code = 0
             try:
-                s.cssText = 'a{color:red}'
-            except Exception:       # noqa: B902
-                pass
-            eval(expr, {'cssutils': cssutils, 'S': s})
-            out.append('edit %s -> no exception; %r' % (expr, s.cssText))
-        except Exception as e:      # noqa: B902
-            out.append('edit %s !! %s' % (expr, type(e).__name__))
-    out.append('mode-after=%r' % bool(cssutils.log.raiseExceptions))
+                os.close(r)
+                data = ('%s -> %s' % (k, f())).encode('utf-8', 'backslashreplace')
+                os.write(w, data)
+                os.close(w)
+            except BaseException:       # noqa: B902
+                code = 1
+            os._exit(code)
+        os.close(w)
+        chunks = []
+        while True:
+            b = os.read(r, 65536)
+            if not b:
+                break
+            chunks.append(b)
+        os.close(r)
+        os.waitpid(pid, 0)
+        out.append(b''.join(chunks).decode('utf-8', 'replace'))
     return out
